@@ -360,12 +360,17 @@ def orient_case(draw):
     n = draw(st.integers(1, 5))
     shape = draw(gen.shapes(max_rank=2))
     mats = [draw(gen.wellcond_matrix(n)) for _ in range(gen.prod(shape))]
-    return dict(n=n, shape=shape, mats=mats)
+    # (frames for forms far from the unit scale have determinants like 1e-15 or 1e9: whether a
+    # matrix reverses orientation is the sign of its determinant, whatever its size)
+    return dict(n=n, shape=shape, mats=mats,
+                mscale=[draw(st.sampled_from([1.0, 1.0, 1.0, 1e-5, 1e3]))
+                        for _ in range(gen.prod(shape))])
 
 
 def body_orient(case, ctx):
     n, shape = case["n"], tuple(case["shape"])
     A = np.array(case["mats"], dtype=float).reshape(shape + (n, n))
+    A = A * np.array(case.get("mscale") or [1.0] * gen.prod(shape)).reshape(shape + (1, 1))
     ctx.label("n=%d" % n, "rank=%d" % len(shape), "batch" if shape else "", "n>=3" if n >= 3
               else "")
     A0 = A.copy()
